@@ -94,7 +94,8 @@ Record hist := mkH {
   h_wrote : list (nat * nat * nat);            (* (transaction, element, name) *)
   h_created : list (nat * nat);                (* (element, step) *)
   h_scrapped : list nat;
-  h_commits : list (nat * nat * nat * list nat);   (* (transaction, name, step, elements it wrote under the name) *)
+  h_commits : list (nat * nat * nat * list nat * list nat);   (* (transaction, name, step, elements it wrote under the name,
+                                                               writers of the name that were waiting for a lock at that moment) *)
   h_codes : list N }.
 
 Definition memb (x : nat) (l : list nat) : bool := existsb (Nat.eqb x) l.
@@ -144,7 +145,10 @@ Definition judge_step (probe : bool) (progs : list (list op)) (ntx : nat) (h : h
                  else let mine := filter (fun x : nat * nat * nat => Nat.eqb (fst (fst x)) (fst c)) (h_wrote h) in
                       map (fun n => (fst c, n, j,
                                      map (fun x : nat * nat * nat => snd (fst x))
-                                         (filter (fun x : nat * nat * nat => Nat.eqb (snd x) n) mine)))
+                                         (filter (fun x : nat * nat * nat => Nat.eqb (snd x) n) mine),
+                                     filter (fun t => match stat_at o t with
+                                                      | XBlk pc => writing_op (op_at progs t pc) && Nat.eqb (name_op (op_at progs t pc)) n
+                                                      | _ => false end) (seq 0 ntx)))
                           (dedup (map (fun x : nat * nat * nat => snd x) mine))) cm in
   let commits := newc ++ h_commits h in
   (* callbacks that start *)
@@ -155,9 +159,10 @@ Definition judge_step (probe : bool) (progs : list (list op)) (ntx : nat) (h : h
                  (* not the cache t itself holds the write lock of: two writers of one name
                     at the same time are outside the quantifier (bbolt: one writer per file) *)
                  negb (existsb (fun x : nat * nat * nat => Nat.eqb (fst (fst x)) t && Nat.eqb (snd (fst x)) e) (h_wrote h)) &&
-                 existsb (fun c : nat * nat * nat * list nat =>
-                            let '(w, n', cstep, els) := c in
-                            negb (Nat.eqb w t) && Nat.eqb n n' && negb (memb e els) &&
+                 existsb (fun c : nat * nat * nat * list nat * list nat =>
+                            let '(w, n', cstep, els, waiting) := c in
+                            (* nor a writer that was already waiting for the element when w committed *)
+                            negb (Nat.eqb w t) && Nat.eqb n n' && negb (memb e els) && negb (memb t waiting) &&
                             match created_at (h_created h) e with Some k => Nat.ltb k cstep | None => false end)
                          commits) ss in
   let created := fold_left (fun acc (s : nat * nat * nat * bool) =>
